@@ -43,6 +43,9 @@ type FileSpec struct {
 	OpenErr string `json:"open_err,omitempty"`
 	// CreateErr: "", "ENOENT", "EACCES", "EISDIR".
 	CreateErr string `json:"create_err,omitempty"`
+	// Pipe: the path is a FIFO (process substitution): Stat reports size 0 and
+	// a named-pipe mode, the bytes only arrive through Read.
+	Pipe bool `json:"pipe,omitempty"`
 }
 
 // Step is everything one simulated crd process depends on besides its code.
@@ -52,8 +55,10 @@ type Step struct {
 	Files       map[string]*FileSpec `json:"files,omitempty"`
 	Seed        uint64               `json:"seed"`
 	MapPolicy   string               `json:"map_policy,omitempty"`   // sorted|reverse|rotate|shuffle
-	SchedPolicy string               `json:"sched_policy,omitempty"` // run-to-block|random|round-robin|prefer-low|prefer-high
+	SchedPolicy string               `json:"sched_policy,omitempty"` // run-to-block|random|round-robin|prefer-low|prefer-high|mostly-low|mostly-high|rtb-high|rtb-random
 	StepBudget  int64                `json:"step_budget,omitempty"`
+	// CPUs is what runtime.NumCPU / GOMAXPROCS(0) report (0: derived from Seed).
+	CPUs int `json:"cpus,omitempty"`
 	// OutDir is where created files are materialised (real directory).
 	OutDir string `json:"out_dir,omitempty"`
 	// JournalPath is where the journal is written at exit.
